@@ -59,6 +59,7 @@ type FuncContract struct {
 	FamIface  string // "object.Object"
 	FamMethod string
 	NoSafety  bool
+	NoDefault bool
 	Pure      bool // result is a function of arguments and heap; no allocation visible
 }
 
@@ -374,6 +375,8 @@ func (cs *Contracts) loadFile(repo, file string) error {
 			cur.Inline = true
 		case "trusted":
 			cur.Trusted = true
+		case "nodefault":
+			cur.NoDefault = true
 		case "nosafety":
 			cur.NoSafety = true
 		case "pure":
